@@ -292,6 +292,31 @@ def run_case(desc, V):
                     claims.append(Fail('mixed-rank:itermv', f'itermv yields {n_it} elements, expected 6', fkey='container-parity|mixed-rank'))
             except Exception as e:  # noqa
                 claims.append(Fail('mixed-rank:itermv:raises', f'itermv raises {type(e).__name__}: {e}', fkey='container-parity|mixed-rank'))
+            # item ASSIGNMENT addresses the same elements as indexing: u[m] = value changes exactly element row m
+            for vtag, mk in (('multivector', lambda: MultiVector.fromkeysvalues(alg, tuple(ks), [V.var('new0'), V.var('new1')])), ('number', lambda: V.var('newn'))):
+                for m in (0, 1):
+                    A2 = A.copy(); B2 = B.copy()
+                    w = alg.multivector(keys=tuple(ks), values=[A2, B2])
+                    val = mk()
+                    fk = f'container-parity|mixed-rank|setitem-{vtag}'
+                    try:
+                        w[m] = val
+                    except Exception as e:  # noqa
+                        claims.append(Fail(f'mixed-rank:setitem-{vtag}[{m}]:raises', f'w[{m}] = <{vtag}> raises {type(e).__name__}: {str(e)[:80]} (w[{m}] reads fine)', fkey=fk + '|raises'))
+                        continue
+                    for ix in np.ndindex(2, 3):
+                        got = w[ix]
+                        gc = dict(zip(got.keys(), got.values()))
+                        for c_i, k in enumerate(ks):
+                            if ix[0] == m:
+                                want_v = (val.values()[c_i] if vtag == 'multivector' else val)
+                            else:
+                                want_v = A[ix] if c_i == 0 else B[ix[1]]
+                            g_ = gc.get(k, 0)
+                            if np.ndim(g_) > 0:
+                                claims.append(Fail(f'mixed-rank:setitem-{vtag}[{m}]@{ix}[{k}]:shape', f'after w[{m}] = <{vtag}> the element w[{ix}] holds an array of shape {np.shape(g_)} on blade {k}', fkey=fk))
+                                continue
+                            claims.append(Eq(f'mixed-rank:setitem-{vtag}[{m}]@{ix}[{k}]', g_, want_v, fkey=fk))
         if sub == 'number-plus-array':
             s_ = V.var('s')
             ks = [k for k in desc['ka'] if k != 0] or [1]
@@ -327,11 +352,15 @@ def run_case(desc, V):
                     pos = int(np.ravel_multi_index(ix, shape))
                     claims.append(Eq(f'setitem-mv:{cname}[{k},{pos}]', after[(k, pos)], Q[k] if ix[0] == 1 else before[(k, pos)], fkey=f'container-parity|setitem-multivector|{cname}'))
         # setitem-broadcast: a number, or ONE array for all coefficients, assigned through the multivector
-        for rhs_kind in ('number', 'array'):
+        for rhs_kind in ('number', 'array', 'array-keepdims'):
             for cname in ('ndarray', 'list'):
                 X = _amv(alg, V, 'Z', desc['ka'], shape, cname)
                 before, _ = _entries(X)
                 rhs = V.var('r') if rhs_kind == 'number' else np.array([V.var('r0'), V.var('r1'), V.var('r2')], dtype=object)
+                if rhs_kind == 'array-keepdims':
+                    # the same array with a leading axis of length one (keepdims=True, value[None], atleast_2d): numpy broadcasting
+                    # repeats it over the coefficient axis, like the array without that axis
+                    rhs = rhs[None]
                 try:
                     X[1] = rhs
                 except Exception as e:  # noqa
@@ -342,7 +371,7 @@ def run_case(desc, V):
                 for k in desc['ka']:
                     for ix in np.ndindex(*shape):
                         pos = int(np.ravel_multi_index(ix, shape))
-                        want = (rhs if rhs_kind == 'number' else rhs[ix[1]]) if ix[0] == 1 else before[(k, pos)]
+                        want = (rhs if rhs_kind == 'number' else np.reshape(rhs, (-1,))[ix[1]]) if ix[0] == 1 else before[(k, pos)]
                         claims.append(Eq(f'setitem-{rhs_kind}:{cname}[{k},{pos}]', after[(k, pos)], want, fkey=f'container-parity|setitem-broadcast|{cname}'))
         claims.append(Eq('reached', 1, 1))
         return claims
